@@ -274,13 +274,27 @@ async fn run_case(c: &Value, blob_dir: &std::path::Path) -> Value {
     for f in c["filters"].as_array().unwrap() {
         let req: Vec<u64> = f["req"].as_array().unwrap().iter().map(|v| v.as_u64().unwrap()).collect();
         let has: Vec<u64> = f["has"].as_array().unwrap().iter().map(|v| v.as_u64().unwrap()).collect();
+        // the same set of rollups asked for in every rotation of ascending and of descending order
+        let mut orders: Vec<Vec<u64>> = vec![];
+        for k in 0..req.len().max(1) {
+            let mut o = req.clone();
+            let by = k.min(o.len());
+            o.rotate_left(by);
+            orders.push(o.clone());
+            o.reverse();
+            orders.push(o);
+        }
+        orders.sort();
+        orders.dedup();
+        for order in orders {
         let resp = server
             .clone()
             .get_filtered_sequencer_block(tonic::Request::new(raw::GetFilteredSequencerBlockRequest {
                 height: height.value(),
-                rollup_ids: req.iter().map(|r| rid(*r).into_raw()).collect(),
+                rollup_ids: order.iter().map(|r| rid(*r).into_raw()).collect(),
             }))
             .await;
+        let req = order.clone();
         let fr = match resp {
             Ok(r) => r.into_inner(),
             Err(e) => {
@@ -302,6 +316,7 @@ async fn run_case(c: &Value, blob_dir: &std::path::Path) -> Value {
                     mism.push(json!({"sig": "rollupdata:filtered:all-rollup-ids-differ", "detail": {"req": req, "expected": exp_ids, "observed": ids}}));
                 }
             }
+        }
         }
     }
     let all_req: Vec<u64> = all_rollups.iter().copied().chain([absent]).collect();
